@@ -607,11 +607,14 @@ func mtEntry(key string, schema any, encs ...any) any {
 }
 
 var c06Keys = []string{"application/json", "application/json; charset=utf-8", "application/*", "*/*", "text/plain",
-	"text/*", "application", "application/problem+json", "application/json;charset=utf-8"}
+	"text/*", "application", "application/problem+json", "application/json;charset=utf-8", "application/json; charset=utf-8; profile=x"}
 
 var c06CTs = []string{"", "application/json", "application/json; charset=utf-8", "application/json;charset=utf-8",
 	"application/problem+json", "application/problem+json; charset=utf-8", "text/plain", "text/plain; charset=ascii",
-	"application", "application; q=1", "application/xml", "image/png", "APPLICATION/JSON", "/json", ";", "application/json ; charset=utf-8"}
+	"application", "application; q=1", "application/xml", "image/png", "APPLICATION/JSON", "/json", ";", "application/json ; charset=utf-8",
+	// several parameters: only the text before the FIRST ';' selects the decoder and the parameter-less level
+	"application/json; charset=utf-8; profile=x", "application/json;a=1;b=2", "text/plain; charset=ascii; format=flowed",
+	"application/json; charset=utf-8;", "application/json;;", "application/problem+json; v=1; charset=utf-8", "application; q=1; r=2"}
 
 func genC06(ctx *hx.Ctx, emit func(hx.Case)) {
 	r := ctx.Rng
@@ -1046,6 +1049,8 @@ func genMultipart(ctx *hx.Ctx, emit func(hx.Case)) {
 		{name: "a", ct: "application/xml", text: "<a/>"},
 		{name: "", ct: "", text: "anon", noDisp: true},
 		{name: "b", ct: "application/json", text: "6 7"},
+		{name: "b", ct: "application/json; charset=utf-8; x=1", text: `"w"`},
+		{name: "a", ct: "text/plain; charset=ascii; format=flowed", text: "hello"},
 	}
 	aSchemas := []any{sch("ty", "string"), sch("ty", "integer"), sch("ty", "array", "items", sch("ty", "string")),
 		sch("ty", "array", "items", sch("ty", "integer")), sch("ty", "object", "props", []any{[]any{"k", sch("ty", "integer")}}), sch("ty", "string", "ro", true)}
@@ -1649,6 +1654,9 @@ func randCT(r *hx.Rng, keys []string) string {
 			if r.Chance(25) {
 				return k + "; charset=utf-8"
 			}
+			if r.Chance(12) {
+				return k + hx.Pick(r, []string{"; charset=utf-8; profile=x", ";a=1;b=2", "; charset=utf-8; v=1; w=2", "; q=1;"})
+			}
 			return k
 		}
 	}
@@ -1862,6 +1870,8 @@ func randCase0(r *hx.Rng) hx.Case {
 		ct := fct
 		if r.Chance(20) {
 			ct += "; charset=utf-8"
+		} else if r.Chance(10) {
+			ct += "; charset=utf-8; v=1"
 		}
 		key := hx.Pick(r, []string{fct, fct, "application/*", "*/*"})
 		return mkCase(r.Bool(), []any{mtEntry(key, s, encs...)}, ct, text, exro)
@@ -1931,6 +1941,9 @@ func randCase0(r *hx.Rng) hx.Case {
 		}
 		text := renderMultipart(bd, parts, r.Chance(4))
 		ct := "multipart/form-data; boundary=" + bd
+		if r.Chance(15) {
+			ct = hx.Pick(r, []string{"multipart/form-data; charset=utf-8; boundary=" + bd, "multipart/form-data; boundary=" + bd + "; charset=utf-8", "multipart/form-data; a=1; boundary=" + bd + "; b=2"})
+		}
 		key := hx.Pick(r, []string{"multipart/form-data", "multipart/form-data", "multipart/*", "*/*"})
 		return mkCase(r.Bool(), []any{mtEntry(key, s)}, ct, text, exro)
 	}
